@@ -93,6 +93,13 @@ fn weights(prop: &str) -> [u32; 7] {
 
 pub fn gen_case(prop: &str, rng: &mut Rng, corpus: &Corpus, thorough: bool) -> Case {
     let mut c = gen_case_plain(prop, rng, corpus, thorough);
+    if matches!(prop, "C06" | "C03" | "C10") && c.family == Family::Pressure && rng.chance(1, 4) {
+        // pressure x roaming: the loop walks along the tape, so tape growth (a runtime call) happens
+        // with many temporaries alive
+        let mv = if rng.chance(1, 2) { ">" } else { "<" };
+        let n = rng.range(1, 60) as usize;
+        c.code = c.code.replacen('[', &format!("[{}", mv.repeat(n)), 1);
+    }
     if prop == "C04" && rng.chance(1, 2) {
         // "every other character is a comment": ASCII, control and multi-byte UTF-8 text anywhere,
         // in particular inside loops that are skipped
